@@ -8,6 +8,9 @@ package main
 //     hand-offs would hide races): any report of the Go race detector is a violation.
 
 import (
+	"encoding/json"
+	"encoding/hex"
+	"crypto/sha256"
 	kio "github.com/flanglet/kanzi-go/v2/io"
 	kanzi "github.com/flanglet/kanzi-go/v2"
 	"sync/atomic"
@@ -37,11 +40,13 @@ type isoCase struct {
 	// Feat: optional code paths inside one instance: "listener" (block listeners on Writer and Reader,
 	// verbosity 5 so that BLOCK_INFO events are built), "skip" (skipBlocks), "range" (from/to)
 	Feat string `json:"feature,omitempty"`
+	// Shape overrides the data shape chosen from the transform name
+	Shape string `json:"shape,omitempty"`
 }
 
 func (i isoCase) String() string {
-	if i.Ck != 0 || i.Feat != "" {
-		return fmt.Sprintf("%s/%s|%s/%s|%d|%d|%d|%d|%d|ck%d|%s", i.TA, i.EA, i.TB, i.EB, i.Jobs, i.Len, i.Block, i.Rounds, i.K, i.Ck, i.Feat)
+	if i.Ck != 0 || i.Feat != "" || i.Shape != "" {
+		return fmt.Sprintf("%s/%s|%s/%s|%d|%d|%d|%d|%d|ck%d|%s|%s", i.TA, i.EA, i.TB, i.EB, i.Jobs, i.Len, i.Block, i.Rounds, i.K, i.Ck, i.Feat, i.Shape)
 	}
 	return fmt.Sprintf("%s/%s|%s/%s|%d|%d|%d|%d|%d", i.TA, i.EA, i.TB, i.EB, i.Jobs, i.Len, i.Block, i.Rounds, i.K)
 }
@@ -135,6 +140,63 @@ func pipeline(t, e string, blk, jobs uint, data []byte, ck int, feat ...string) 
 	return sk.Bytes(), res.Out, nil
 }
 
+// freshAlone returns the SHA-256 of the stream the pipeline writes when it is the ONLY thing a fresh
+// process ever runs ("the results they produce when run alone" cannot be taken from a process that
+// has already run other instances: package-level caches would be warm). Results are memoised.
+type aloneKey struct {
+	T, E  string
+	Block uint
+	Jobs  uint
+	Len   int
+	Ck    int
+	Feat  string
+	Shape string
+}
+
+var (
+	aloneMu    sync.Mutex
+	aloneCache = map[aloneKey]string{}
+)
+
+func freshAlone(k aloneKey) string {
+	aloneMu.Lock()
+	if v, ok := aloneCache[k]; ok {
+		aloneMu.Unlock()
+		return v
+	}
+	aloneMu.Unlock()
+	js, _ := json.Marshal(k)
+	exe, _ := os.Executable()
+	out, err := exec.Command(exe, "isoalone", string(js)).Output()
+	v := strings.TrimSpace(string(out))
+	if err != nil || len(v) != 64 {
+		v = "" // unknown: no comparison
+	}
+	aloneMu.Lock()
+	aloneCache[k] = v
+	aloneMu.Unlock()
+	return v
+}
+
+func init() {
+	workerCmds["isoalone"] = func(args []string) {
+		var k aloneKey
+		if json.Unmarshal([]byte(args[0]), &k) != nil {
+			os.Exit(2)
+		}
+		sh := k.Shape
+		if sh == "" {
+			sh = shapeFor(k.T)
+		}
+		st, _, err := pipeline(k.T, k.E, k.Block, k.Jobs, shape(sh, k.Len), k.Ck, k.Feat)
+		if err != nil {
+			os.Exit(3)
+		}
+		h := sha256.Sum256(st)
+		fmt.Println(hex.EncodeToString(h[:]))
+	}
+}
+
 func runIso(c isoCase) (*Fail, bool) {
 	type spec struct{ t, e string }
 	specs := []spec{{c.TA, c.EA}, {c.TB, c.EB}}
@@ -144,12 +206,22 @@ func runIso(c isoCase) (*Fail, bool) {
 	datas := make([][]byte, len(specs))
 	alone := make([][]byte, len(specs))
 	for i, s := range specs {
-		datas[i] = shape(shapeFor(s.t), c.Len+i*13)
+		sh := c.Shape
+		if sh == "" {
+			sh = shapeFor(s.t)
+		}
+		datas[i] = shape(sh, c.Len+i*13)
 		st, out, err := pipeline(s.t, s.e, c.Block, c.Jobs, datas[i], c.Ck, c.Feat)
 		if err != nil || !bytes.Equal(out, datas[i]) {
 			return nil, false // C01's business
 		}
 		alone[i] = st
+	}
+	fresh := make([]string, len(specs))
+	if !isoNoFresh {
+		for i, s := range specs {
+			fresh[i] = freshAlone(aloneKey{s.t, s.e, c.Block, c.Jobs, c.Len + i*13, c.Ck, c.Feat, c.Shape})
+		}
 	}
 	for r := 0; r < max(c.Rounds, 1); r++ {
 		var wg sync.WaitGroup
@@ -169,6 +241,8 @@ func runIso(c isoCase) (*Fail, bool) {
 					errs[i] = "error: " + err.Error()
 				case !bytes.Equal(st, alone[i]):
 					errs[i] = fmt.Sprintf("stream differs from the isolated run at byte %d", firstDiff(st, alone[i]))
+				case fresh[i] != "" && func() bool { h := sha256.Sum256(st); return hex.EncodeToString(h[:]) != fresh[i] }():
+					errs[i] = "stream differs from the one the same pipeline writes when it is the only instance a fresh process ever runs (state left behind by other instances)"
 				case !bytes.Equal(out, datas[i]):
 					errs[i] = fmt.Sprintf("decoded bytes differ at %d", firstDiff(out, datas[i]))
 				}
@@ -183,6 +257,9 @@ func runIso(c isoCase) (*Fail, bool) {
 	}
 	return nil, true
 }
+
+// isoNoFresh: the -race binary skips the fresh-process comparison (its job is the race reports)
+var isoNoFresh = false
 
 var famIso = NewFamily("C18.isolation", runIso)
 
@@ -212,6 +289,16 @@ func isoCatalogue(c *Ctx, race bool) []isoCase {
 			for _, j := range []uint{3, 8} {
 				o = append(o, isoCase{TA: "LZ", EA: "HUFFMAN", TB: "LZ", EB: "HUFFMAN", Jobs: j, Len: int(j)*2048 + 700, Block: 1024, Rounds: 2, K: 1, Feat: ft})
 				o = append(o, isoCase{TA: "NONE", EA: "NONE", TB: "TEXT", EB: "ANS0", Jobs: j, Len: int(j)*2048 + 700, Block: 1024, Rounds: 1, K: 2, Ck: 64, Feat: ft})
+			}
+		}
+		// adaptive codecs on larger, heterogeneous blocks (text and binary stretches in one block:
+		// the predictors switch between their model variants), every ordered pair
+		if !race {
+			ad := []cd{{"NONE", "TPAQ"}, {"NONE", "TPAQX"}, {"NONE", "CM"}, {"TEXT", "TPAQ"}, {"NONE", "FPAQ"}}
+			for _, a := range ad {
+				for _, b := range ad {
+					o = append(o, isoCase{TA: a.t, EA: a.e, TB: b.t, EB: b.e, Jobs: 1, Len: 100000, Block: 65536, Rounds: 1, K: 2, Shape: "mixed"})
+				}
 			}
 		}
 		return o
@@ -325,6 +412,7 @@ func init() {
 			tier = args[0]
 		}
 		c := newCtx("C18", tier, "other")
+		isoNoFresh = true
 		cases := isoCatalogue(c, true)
 		ch := make(chan isoCase, len(cases))
 		for _, cs := range cases {
@@ -362,7 +450,7 @@ func init() {
 	})
 
 	register("C18", "other", func(c *Ctx) {
-		c.Rule("(1) model-checked: two independent pipelines (writer||writer, writer||reader, reader||reader; jobs 2 each) under the controlled scheduler, every interleaving of their synchronisation points with 0 preemptions (all choices at blocking points; 1 for writer||writer) in quick, 1 (2) in thorough, over codec pairs that share package-level tables; each pipeline's result must equal its isolated result. (2) free-running isolation grid: every ordered pair of the 18+8 codecs as 2 concurrent pipelines, level presets as 3, jobs 2..16 in one pipeline, a > 4 MiB BWT block. (3) the same grid bodies in a binary built with -race and run free: any Go race detector report is a violation (fingerprint = the two access sites)")
+		c.Rule("(1) model-checked: two independent pipelines (writer||writer, writer||reader, reader||reader; jobs 2 each) under the controlled scheduler, every interleaving of their synchronisation points with 0 preemptions (all choices at blocking points; 1 for writer||writer) in quick, 1 (2) in thorough, over codec pairs that share package-level tables; each pipeline's result must equal its isolated result. (2) free-running isolation grid (each concurrent stream is also compared with the stream the same pipeline writes as the only instance of a fresh process, so state left behind by earlier instances shows): every ordered pair of the 18+8 codecs as 2 concurrent pipelines, level presets as 3, jobs 2..16 in one pipeline, a > 4 MiB BWT block. (3) the same grid bodies in a binary built with -race and run free: any Go race detector report is a violation (fingerprint = the two access sites)")
 		c.Extra("explanation", "Data-race freedom is decided by a dynamic happens-before monitor (Go race detector) over an exhaustively enumerated CATALOGUE of concurrent configurations, not over all schedules: a cooperative scheduler orders everything and would blind the detector, so that pass runs free. A race between two pipelines that share no synchronisation is reported regardless of timing (no happens-before edge can exist), so for inter-instance state the pass is schedule-insensitive; intra-instance protocol state is covered schedule-exhaustively by C07's exclusivity oracle. Non-interference of results is model-checked for 2 pipelines x 2 jobs up to the stated preemption bound.")
 		// (3) the race pass runs in its own process, concurrently with (1) and (2)
 		bin := os.Getenv("KZMC_RACE_BIN")
